@@ -7,6 +7,41 @@ SPECS = {"tree": (TreeSpec("c01"), "harness", "runner")}
 PROP_FILES = ["C01"]
 
 
+def conc_puts(ctx):
+    """Last sentence of C01: concurrent puts to distinct present keys + reads of other keys, under the race detector."""
+    import json, subprocess, os
+    ok, out, exe = vlib.build_runner(race=True)
+    part = {"what": "concurrent Put to distinct present keys + Get/Contains of other keys under go -race"}
+    ctx.coverage.setdefault("parts", {})["concurrent-puts"] = part
+    if not ok:
+        ctx.violation("harness-build-race", "the -race harness does not build: " + out[-800:], {"build_output": out[-3000:]}, failing_input=False)
+        return
+    n = 12 if ctx.tier == "quick" else 200
+    cases = []
+    for i in range(n):
+        cases.append({"id": i, "component": "treeconc", "ops": [],
+                      "cfg": {"nkeys": ctx.rng.choice([1, 15, 16, 40, 300, 2000]), "writers": ctx.rng.choice([1, 2, 4, 8]),
+                              "readers": ctx.rng.choice([0, 1, 4]), "rounds": ctx.rng.choice([1, 5, 30]), "mode": 3}})
+    inp = "".join(json.dumps(c) + "\n" for c in cases)
+    env = dict(os.environ, GORACE="halt_on_error=1 exitcode=66")
+    p = subprocess.run([exe, "treeconc"], input=inp, stdout=subprocess.PIPE, stderr=subprocess.PIPE, text=True, timeout=600, env=env)
+    obs = [json.loads(l) for l in p.stdout.split("\n") if l.strip()]
+    part["evaluations"] = len(obs)
+    part["distinct_nontrivial"] = len({json.dumps(c["cfg"], sort_keys=True) for c in cases[:len(obs)]})
+    part["sample"] = {"case": cases[0], "impl_observations": obs[0]["obs"] if obs else None}
+    if p.returncode != 0:
+        k = len(obs)
+        ctx.violation("concurrent-puts:data-race", "the race detector (or a crash) stopped scenario %d: %s" % (k, p.stderr[-1500:]),
+                      {"component": "treeconc", "case": cases[k] if k < len(cases) else None, "stderr": p.stderr[-4000:],
+                       "how": "build/runner-race treeconc < case (GORACE=halt_on_error=1)"})
+        return
+    for c, o in zip(cases, obs):
+        msg = o["obs"][0][1]
+        if msg:
+            ctx.violation("concurrent-puts:" + msg.replace(" ", "-"), msg, {"component": "treeconc", "case": c, "impl_observations": o["obs"]})
+            break
+
+
 def run(ctx):
     proofs_ok = ctx.check_proofs(PROP_FILES, extra_targets=["theories/Tree/Corr.vo"])
     ok, out, exe = vlib.build_runner()
@@ -14,6 +49,7 @@ def run(ctx):
         ctx.violation("harness-build", "the harness does not build against the current tree: " + out[-1500:], {"build_output": out[-4000:]}, failing_input=False)
         return ctx.finish()
     vlib.seq_differential(ctx, TreeSpec("c01"), exe, proofs_ok, tag="tree")
+    conc_puts(ctx)
     vlib.merge_parts(ctx, "cases = (order mode: compare natural/reversed/coarse, less natural/coarse; Map or Set) x prefill (ascending, descending, sawtooth, random to 0..260 keys, node-capacity boundaries) "
                      "x random Put/Delete/Get/Contains/Len/First/Last/Range/RangeReverse with all 9 bound-kind pairs; compared with the B-tree model (exact), the sorted-list spec and an independent ideal map; "
                      "distinct = hash of ops; non-trivial = >= 8 ops")
